@@ -86,7 +86,10 @@ class Drv:
                     pass
             self.dead = {"op": "died", "signal": -rc if rc is not None and rc < 0 else 0, "rc": rc, "stderr": err}
             return self.dead
-        return json.loads(line)
+        try:
+            return json.loads(line)
+        except ValueError:
+            raise MachineryError("driver wrote a non-JSON line: %r (command %r)" % (line[:300], str(c)[:300]))
 
     def _readline(self):
         # watchdog through alarm-less polling: use select on the pipe
